@@ -47,6 +47,7 @@ structure Cfg where
 
 structure Script where
   preFails : Bool := false    -- pre-hook script exits non-zero
+  dbFails : Bool := false     -- the database cannot be opened (not a database, unsupported schema version, ...)
   setup : Ev := none
   main : Ev := none
   tdPre : Ev := none          -- teardown code of the command before it calls `super().teardown()`
@@ -58,6 +59,7 @@ structure Quirks where
   hookUnbound : Bool := false        -- `run_hook` touches the unbound `p` when the script fails
   scannerDisconnect : Bool := false  -- `Scanner.teardown` disconnects the database itself
   cancelUnmapped : Bool := false     -- no `except` clause for `CancelledError`
+  dbOpenUnguarded : Bool := false    -- `_db_insert_run_meta()` runs before the `try:`; `connect()` leaks on failure
   deriving DecidableEq, Repr, Inhabited
 
 inductive Hook | pre | post
@@ -83,6 +85,7 @@ inductive Outcome
   | ret (n : Nat)      -- `entry_point()` returned n  (-> `sys.exit(n)` in cli/gallia.py)
   | escCancelled       -- `CancelledError` left `entry_point()` (asyncio.run turns it into KeyboardInterrupt)
   | escHook            -- the `UnboundLocalError` of `run_hook` left `entry_point()`
+  | escDb              -- the database error left `entry_point()`
   deriving DecidableEq, Repr, Inhabited
 
 structure MetaFile where
@@ -265,6 +268,11 @@ def prePhase (q : Quirks) (c : Cfg) (s : Script) : St × Bool :=
 def dbInsert (c : Cfg) (st : St) : St :=
   if c.db then { st.step with dbConn := true, dbRow := .running st.tick } else st
 
+/-- the body of the `try:` — `_db_insert_run_meta()` then `run()`.  When the database cannot be opened,
+    `DBHandler.connect` closes what it had opened and the error (an unexpected `Exception`) takes the place of the run. -/
+def tryBody (q : Quirks) (c : Cfg) (s : Script) (st : St) : St × Option Exc :=
+  if c.db && s.dbFails then (st.step, some (.err .other)) else runBody q c.kind s (dbInsert c st)
+
 /-- post-hook with `GALLIA_EXIT_CODE` and `GALLIA_META` -/
 def postPhase (q : Quirks) (c : Cfg) (s : Script) (code : Nat) (st : St) : St × Bool :=
   if c.hooks then
@@ -278,7 +286,9 @@ def unlock (c : Cfg) (st : St) : St :=
 def entryPointQ (q : Quirks) (c : Cfg) (s : Script) : Final :=
   let p := prePhase q c s
   if p.2 then p.1.final .escHook else           -- nothing below runs
-  let r := runBody q c.kind s (dbInsert c p.1)  -- try: exit_code = await self.run()
+  -- pinned behaviour: the insert is outside the try and the half-opened connection is left behind
+  if q.dbOpenUnguarded && c.db && s.dbFails then ({ p.1.step with dbConn := true }).final .escDb else
+  let r := tryBody q c s p.1                    -- try: _db_insert_run_meta(); exit_code = await self.run()
   let m := mapExit q c.kind r.2                 -- except ...
   let st := finish c m.1 r.1                    -- finally: ...
   if m.2 then st.final .escCancelled else       -- the exception keeps propagating
@@ -315,7 +325,7 @@ def ladderNames (q : Quirks) : List (List String × String) :=
 
 /-- the statements of `entry_point` in the order `entryPointQ` executes them -/
 def modelSteps : List String :=
-  ["lock", "artifacts", "log_open", "pre_hook", "db_insert", "exit_code=0", "try_run",
+  ["lock", "artifacts", "log_open", "pre_hook", "exit_code=0", "try:db_insert", "try:run",
    "finally:meta.exit_code", "finally:meta.end_time", "finally:db_finish", "finally:meta_write", "finally:log_close",
    "post_hook", "unlock", "return"]
 
